@@ -111,7 +111,9 @@ func parseProxyV2(br *bufio.Reader) (*ProxyInfo, error) {
 	if cmd == 0x0 {
 		return &ProxyInfo{Local: true}, nil
 	}
-	family := header[13] & 0x0f
+	// byte 13: high nibble = address family (1 AF_INET, 2 AF_INET6, 3 AF_UNIX),
+	// low nibble = transport (1 STREAM, 2 DGRAM).
+	family := header[13] >> 4
 	switch family {
 	case 0x1:
 		return parseProxyV2Inet(payload)
